@@ -29,7 +29,7 @@ type c13Spec struct {
 	Side       string   `json:"side"` // client | server
 	IntervalMs int      `json:"interval_ms"`
 	Threshold  int      `json:"threshold"`
-	Pattern    []string `json:"pattern"`             // per ping: A | L (answered late, < interval/2) | S | N | R
+	Pattern    []string `json:"pattern"`             // per ping: A | L (answered late, < interval/2) | S | N | D (N with error data) | R
 	CloseAfter int      `json:"close_after"`         // the harness closes the session after this many intervals (if still open)
 	CloseErr   bool     `json:"close_err,omitempty"` // the transport's Close reports an error although it closes
 	Hand       string   `json:"hand,omitempty"`      // how the session came about: "" legacy initialize | fallback (client asked for its default version, the peer only knows initialize) | none (server: the peer never sends initialize) | discover (server: the peer opens with server/discover)
@@ -61,6 +61,9 @@ func genC13(r *vh.Rand, idx int) c13Spec {
 		if s.Pattern[i] == "N" && r.Chance(2, 3) {
 			s.Pattern[i] = "S"
 		}
+		if s.Pattern[i] == "N" && r.Bool() {
+			s.Pattern[i] = "D" // method-not-found whose error object carries a data member
+		}
 	}
 	s.CloseAfter = n + r.Range(1, 4)
 	s.CloseErr = r.Chance(1, 4)
@@ -79,7 +82,7 @@ func TestVerifC13(t *testing.T) {
 	cfg := vh.Config{
 		Property: "C13",
 		Cases:    vh.Pick(1500, 60000),
-		Rule: "each case: a client or server session with KeepAlive in {10 ms, 1 s, 1 h} and failure threshold in {0,1,2,3,5} over a scripted peer; ping outcomes follow a pattern of length 1..12 over {answered, answered late (< interval/2), silence, silence with the follow-up cancellation notice rejected, write blocked until the ping's deadline, method-not-found, write rejected}, answered afterwards; the transport's Close optionally reports an error; the harness closes the session a few intervals later. " +
+		Rule: "each case: a client or server session with KeepAlive in {10 ms, 1 s, 1 h} and failure threshold in {0,1,2,3,5} over a scripted peer; ping outcomes follow a pattern of length 1..12 over {answered, answered late (< interval/2), silence, silence with the follow-up cancellation notice rejected, write blocked until the ping's deadline, method-not-found (bare or with an error data member), write rejected}, answered afterwards; 1/3 of the sessions come about without the legacy handshake (client asking for its default version and falling back to initialize; server whose peer never initializes or opens with server/discover); 1/4 have a user call without deadline outstanding that the peer never answers (it must fail, as connection closed, at the instant keep-alive closes the session); the transport's Close optionally reports an error; the harness closes the session a few intervals later. " +
 			"Thorough tier: all patterns over {A,S,N,R} up to length 6 x 4 thresholds. non-trivial: >=1 failed ping and (>=1 answered ping after a failure, or the session was closed by keep-alive). distinct = distinct (side, interval, threshold, pattern)",
 		MinNontrivial: 100,
 		Assumptions:   []string{"the peer keeps draining its input; a missed ping is one that was received and not answered", "a ping whose write is rejected by the transport fails at once"},
@@ -151,6 +154,8 @@ func runC13(c *vh.Case, spec c13Spec) {
 				}()
 			case "N":
 				sc.Inject(vhm.ErrResp(id, -32601, "method not found: ping", ""))
+			case "D":
+				sc.Inject(vhm.ErrResp(id, -32601, "Method not found", `{"method":"ping"}`))
 			case "R":
 				return fmt.Errorf("%w: verif-rejected", jsonrpc2.ErrRejected)
 			case "S":
@@ -289,7 +294,7 @@ func decideC13(c *vh.Case, spec c13Spec) {
 				recovered = true
 			}
 			consecutive = 0
-		case "N":
+		case "N", "D":
 			stopped = true
 		case "S", "R", "W", "C":
 			failures++
